@@ -31,6 +31,8 @@ package tls
 //@   ensures clean_end: ret1 == nil ==> rdclean(val(callarg(io.ReadFull, 0, 0)))
 //@   note clean_end: a stream that fails after the declared length (checksum mismatch, truncated trailer) is rejected: the body read drops the decoder's error once the buffer is full, only the trailing read reports it
 //@   ensures either: ret0 == nil || ret1 == nil
+//@   at before call zstd.NewReader#0: assert zstd_defaults: len(arg1) == 0
+//@   note zstd_defaults (C21: any valid compressed encoding, any window size): the zstd decoder is created without options, so no decoder-side limit rejects a valid frame
 //@   at before call io.ReadFull#0: assert whole: len(arg1) == L
 //@   at before call io.ReadFull#1: assert same_reader: arg0 == callarg(io.ReadFull, 0, 0) && len(arg1) == 1
 //@   at before call unmarshal#0: assert framing: len(arg1) == L + 4 && arg1[0] == 11 && arg1[1]*65536 + arg1[2]*256 + arg1[3] == L
